@@ -247,13 +247,17 @@ pub fn run(tier: &str) -> i32 {
     let cms = client_messages(thorough);
     let sms = server_messages(thorough);
     let r1 = par_map(&cms, |_, m| {
-        block_on(async {
-            match line_roundtrip(m).await {
-                Ok((_, d, r)) if d == *m && r == *m => Ok(()),
-                Ok((enc, d, _)) => Err(format!("decodes to a different message: {enc} -> {d:?}")),
-                Err(e) => Err(e),
-            }
+        // (a panic of the codec is a verdict about the code under test, not a harness failure)
+        mc::util::catch(|| {
+            block_on(async {
+                match line_roundtrip(m).await {
+                    Ok((_, d, r)) if d == *m && r == *m => Ok(()),
+                    Ok((enc, d, _)) => Err(format!("decodes to a different message: {enc} -> {d:?}")),
+                    Err(e) => Err(e),
+                }
+            })
         })
+        .unwrap_or_else(|p| Err(format!("panic in the code under test: {p}")))
     });
     for (m, r) in cms.iter().zip(r1) {
         if let Err(e) = r {
@@ -261,13 +265,17 @@ pub fn run(tier: &str) -> i32 {
         }
     }
     let r2 = par_map(&sms, |_, m| {
-        block_on(async {
-            match line_roundtrip(m).await {
-                Ok((_, d, r)) if d == *m && r == *m => Ok(()),
-                Ok((enc, d, _)) => Err(format!("decodes to a different message: {enc} -> {d:?}")),
-                Err(e) => Err(e),
-            }
+        // (a panic of the codec is a verdict about the code under test, not a harness failure)
+        mc::util::catch(|| {
+            block_on(async {
+                match line_roundtrip(m).await {
+                    Ok((_, d, r)) if d == *m && r == *m => Ok(()),
+                    Ok((enc, d, _)) => Err(format!("decodes to a different message: {enc} -> {d:?}")),
+                    Err(e) => Err(e),
+                }
+            })
         })
+        .unwrap_or_else(|p| Err(format!("panic in the code under test: {p}")))
     });
     for (m, r) in sms.iter().zip(r2) {
         if let Err(e) = r {
@@ -300,7 +308,7 @@ pub fn run(tier: &str) -> i32 {
     for c in &cmds {
         sync_count += 1;
         let m = LeaderSyncMessage::Mut(c.clone());
-        match block_on(line_roundtrip(&m)) {
+        match mc::util::catch(|| block_on(line_roundtrip(&m))).unwrap_or_else(|p| Err(format!("panic in the code under test: {p}"))) {
             Ok((enc, LeaderSyncMessage::Mut(d), LeaderSyncMessage::Mut(r))) => {
                 if !same_cmd(c, &d) || !same_cmd(c, &r) {
                     rep.violation(format!("sync message {c:?} decodes to {d:?} ({enc})"), json!({"kind": "sync", "message": format!("{c:?}")}));
@@ -314,7 +322,7 @@ pub fn run(tier: &str) -> i32 {
     // real export
     for (k, v, ver) in sync_entries() {
         sync_count += 1;
-        let res: Result<Option<&'static str>, String> = block_on(async {
+        let res: Result<Option<&'static str>, String> = mc::util::catch(|| block_on(async {
             let mut wb = Worterbuch::with_config(base_config());
             match ver {
                 None => wb.set(k.clone(), v.clone(), crate::ops::cid(crate::ops::INTERNAL), false).await.map_err(|e| format!("MACHINERY: {e}"))?,
@@ -351,7 +359,8 @@ pub fn run(tier: &str) -> i32 {
                 }
             }
             Ok(None)
-        });
+        }))
+        .unwrap_or_else(|p| Err(format!("panic in the code under test: {p}")));
         let replay = json!({"kind": "stateSync", "key": k, "value": v, "cas_version": ver});
         match res {
             Ok(None) => {}
